@@ -597,6 +597,58 @@ func c07Setup(c *Ctx, fns []*ssa.Function) {
 	}
 }
 
+// resetJustBefore: the place addr points to is overwritten with a zero value (a zero constant, or a struct literal
+// without fields set) by a store that dominates the call in the same block, with no other call / store to it between.
+func resetJustBefore(call *ssa.Call, addr ssa.Value) bool {
+	blk := call.Block()
+	var reset *ssa.Store
+	for _, in := range blk.Instrs {
+		if in == ssa.Instruction(call) {
+			break
+		}
+		st, ok := in.(*ssa.Store)
+		if !ok {
+			continue
+		}
+		same := st.Addr == addr
+		if !same {
+			fa1, ok1 := st.Addr.(*ssa.FieldAddr)
+			fa2, ok2 := addr.(*ssa.FieldAddr)
+			same = ok1 && ok2 && fa1.Field == fa2.Field && fa1.X == fa2.X
+		}
+		if !same {
+			continue
+		}
+		reset = nil
+		switch v := st.Val.(type) {
+		case *ssa.Const:
+			if v.Value == nil || isZeroConst(v) {
+				reset = st
+			}
+		case *ssa.UnOp:
+			// *t with t a fresh local that nothing was stored into: the zero value of the struct (T{})
+			if a, isA := v.X.(*ssa.Alloc); isA && v.Op == token.MUL && len(StoresTo(a)) == 0 {
+				fieldsSet := false
+				if a.Referrers() != nil {
+					for _, r := range *a.Referrers() {
+						if fa, isFA := r.(*ssa.FieldAddr); isFA && fa.Referrers() != nil {
+							for _, r2 := range *fa.Referrers() {
+								if _, isSt := r2.(*ssa.Store); isSt {
+									fieldsSet = true
+								}
+							}
+						}
+					}
+				}
+				if !fieldsSet {
+					reset = st
+				}
+			}
+		}
+	}
+	return reset != nil
+}
+
 // c07FreshTarget decides O7.6 over every JSON decode call of the ammo
 // provider packages.
 func c07FreshTarget(c *Ctx) {
@@ -629,6 +681,12 @@ func c07FreshTarget(c *Ctx) {
 				for _, r := range Roots(target, false) {
 					a, isA := Strip(r).(*ssa.Alloc)
 					if !isA {
+						// storage that outlives the entry is as good as fresh when it is zeroed for this entry: a store of
+						// the zero composite (T{}) to the same place in the same block just before the decode, nothing
+						// touching it in between
+						if resetJustBefore(cl, Strip(r)) {
+							continue
+						}
 						fresh = false
 						why = "the target is not a local variable: " + r.String()
 						continue
